@@ -171,6 +171,10 @@ def run(ctx, report: Report) -> None:
     from .e2etab import equivalent_spellings_table
     equivalent_spellings_table(ctx, r6, only=(':not', ':is', ':has', 'pseudo-class name'))
 
+    from .e2ematch import default_namespace_state_table
+    default_namespace_state_table(ctx, r7)
+
+
 
 
 
